@@ -1,7 +1,7 @@
 (* JsonModel.v -- executable model of the JSON reader and writer of Qentem
    (definitions only; proofs in JsonProofs*.v).
 
-   Modelled C++ (after the repairs D2, D11, D15, D16, D61, D62, D63 of this component and
+   Modelled C++ (after the repairs D2, D11, D15, D16, D61, D62, D63, D81 of this component and
    D28, D43, D44, D45 of the digit component -- see /verif/findings):
      Include/JSON.hpp        Parse, parseObject, parseArray, parseValue
      Include/JSONUtils.hpp   UnEscape<true>, Escape, JSONotation_T (via gen/Tables_json.v)
@@ -573,6 +573,30 @@ Definition parse_fuel (f : nat) (w : N) (s : list N) : jres jv :=
     if has (trim r1) then JOk JUndef else JOk v.
 
 Definition parse (w : N) (s : list N) : jres jv := parse_fuel (2 * length s + 4) w s.
+
+(* JSON::Parse(stream, content, length) with a caller-supplied scratch stream [st] (whatever an
+   earlier parse left in it): after D81 the first step is stream.Clear().  The result carries the
+   stream as the parse leaves it, so that a sequence of parses through one stream can be modelled. *)
+Definition parse_stream_fuel (f : nat) (w : N) (st s : list N) : jres (jv * list N) :=
+  let st0 : list N := match st with _ => [] end in              (* stream.Clear() *)
+  if (length s =? 0)%nat then JOk (JUndef, st0)
+  else
+    '(v, r1, st1) <- pval f w st0 (trim s) ;;
+    if has (trim r1) then JOk (JUndef, st1) else JOk (v, st1).
+
+Definition parse_stream (w : N) (st s : list N) : jres (jv * list N) :=
+  parse_stream_fuel (2 * length s + 4) w st s.
+
+(* several texts through ONE scratch stream *)
+Fixpoint parse_history (w : N) (st : list N) (texts : list (list N)) : list (jres jv) :=
+  match texts with
+  | [] => []
+  | s :: more =>
+    match parse_stream w st s with
+    | JOk (v, st') => JOk v :: parse_history w st' more
+    | JErr e => JErr e :: parse_history w [] more
+    end
+  end.
 
 (* ------------------------------------------------------------------ *)
 (* [defined v]: no Undefined anywhere inside *)
